@@ -1,9 +1,12 @@
 //! C10 The hop table covers exactly the probed path and ends at the target.
 
-use super::{e2e, sim_case, SimCase};
+use super::{c05, c09, e2e, sim_case, SimCase};
+use crate::simnet::run::summarize;
+use crate::{vensure, vfail};
 use crate::engine::*;
 use crate::simnet::gen::GenOpts;
 use crate::simnet::*;
+use proptest::prelude::*;
 use proptest::strategy::BoxedStrategy;
 use serde_json::json;
 
@@ -30,19 +33,162 @@ fn test(c: &SimCase, obs: &mut Obs) -> CheckResult {
     Ok(())
 }
 
+// ---------------------------------------------------------------------------------------------
+// the same oracle on runs with socket faults: failed sends and TCP address-in-use re-issues put
+// Failed / Skipped entries anywhere in a round, including in its first slot
+
+fn fault_strat() -> BoxedStrategy<SimCase> {
+    sim_case(&GenOpts {
+        supported_only: true,
+        sending_only: true,
+        max_hops: 10,
+        long_path_pct: 0,
+        rounds: (1, 5),
+        ..GenOpts::default()
+    })
+    .prop_flat_map(|c| {
+        let stages = c09::send_stages(&c.cfg);
+        let cfg = c.cfg.clone();
+        let one = (proptest::sample::select(stages), prop_oneof![2 => 0u16..=3, 2 => 0u16..=40], proptest::sample::select(c09::ERRNOS.to_vec()), prop_oneof![3 => Just(0u16), 1 => 1u16..=6])
+            .prop_filter_map("fatal faults end the run before anything is published", move |(stage, nth, errno, repeat)| {
+                let class = c09::classify_fault(&cfg, stage, errno);
+                (class != c09::FaultClass::Fatal || nth >= 3).then_some(FaultSpec { stage, nth, errno, repeat })
+            });
+        (Just(c), proptest::collection::vec(one, 1..=4))
+    })
+    .prop_map(|(mut c, f)| {
+        c.world.faults = f;
+        c
+    })
+    .boxed()
+}
+
+fn fault_test(c: &SimCase, obs: &mut Obs) -> CheckResult {
+    let log = run_trace(&c.cfg, &c.world);
+    let Some(truth) = e2e::prepare(&log, obs)? else {
+        return Ok(());
+    };
+    e2e::check_table(&log, &truth, &mut Obs::default())?;
+    let first_slot_gap = truth.rounds.iter().any(|r| matches!(r.first(), Some(crate::oracle::Expected::Skipped | crate::oracle::Expected::Failed { .. })));
+    let any_gap = truth.rounds.iter().flatten().any(|e| matches!(e, crate::oracle::Expected::Skipped | crate::oracle::Expected::Failed { .. }));
+    if first_slot_gap {
+        obs.class("first-slot-skipped-or-failed");
+    }
+    if any_gap && !log.rounds.is_empty() {
+        obs.class("nontrivial");
+        let shape: Vec<(usize, u8)> = log.rounds.iter().map(|r| (r.probes.len(), r.largest_ttl)).collect();
+        obs.nontrivial(&(c.cfg.cell(), c.cfg.first_ttl, first_slot_gap, shape));
+    }
+    obs.sample(json!({
+        "cfg": c.cfg.cell(), "first_ttl": c.cfg.first_ttl,
+        "faults": c.world.faults.iter().map(|f| format!("{:?}#{}+{} errno {}", f.stage, f.nth, f.repeat, f.errno)).collect::<Vec<_>>(),
+        "largest_ttl": log.rounds.iter().map(|r| r.largest_ttl).collect::<Vec<_>>(),
+        "hops": log.tables.last().and_then(|t| t.as_ref().ok()).map(|t| t.hop_ttls.clone()),
+    }));
+    Ok(())
+}
+
+// ---------------------------------------------------------------------------------------------
+// synthetic round sequences applied to `State` directly
+
+fn syn_strat() -> BoxedStrategy<c05::History> {
+    c05::history_strat(c05::HistOpts { max_rounds: 12, max_probes: 10, hosts_per_hop: 2, max_flows: (1, 8), ..c05::HistOpts::default() })
+}
+
+fn syn_test(h: &c05::History, obs: &mut Obs) -> CheckResult {
+    let mut lowest = 0u8;
+    let mut highest = 0u8;
+    let mut probed = [false; 256];
+    let mut leading_gap = false;
+    let mut after = |k: usize, b: &c05::BuiltRound, state: &trippy_core::State| -> CheckResult {
+        for p in &b.probes {
+            let ttl = match p {
+                trippy_core::ProbeStatus::Awaited(a) => Some(a.ttl.0),
+                trippy_core::ProbeStatus::Complete(a) => Some(a.ttl.0),
+                trippy_core::ProbeStatus::Failed(a) => Some(a.ttl.0),
+                _ => None,
+            };
+            if let Some(t) = ttl {
+                probed[usize::from(t)] = true;
+                lowest = if lowest == 0 { t } else { lowest.min(t) };
+            }
+        }
+        if matches!(b.probes.first(), Some(trippy_core::ProbeStatus::Skipped)) && b.probes.len() > 1 {
+            leading_gap = true;
+        }
+        highest = highest.max(b.largest_ttl);
+        let table = match catch(|| summarize(state)) {
+            Ok(t) => t,
+            Err(p) => vfail!(panic_sig(&p), "querying the hop table after round {k} panicked: {p}"),
+        };
+        let expect: Vec<u8> = if lowest == 0 || highest == 0 { vec![] } else { (lowest..=highest).map(|t| if probed[usize::from(t)] { t } else { 0 }).collect() };
+        vensure!(table.hop_ttls == expect, "hop-run", "after round {k}: hops() carries ttls {:?}, expected the run {lowest}..={highest} = {expect:?}", table.hop_ttls);
+        if b.largest_ttl > 0 {
+            vensure!(table.target_hop_ttl == b.largest_ttl, "target-hop", "after round {k}: target_hop().ttl() = {} but the round's path length is {}", table.target_hop_ttl, b.largest_ttl);
+            vensure!(table.is_target_ttls == vec![b.largest_ttl], "is-target", "after round {k}: is_target() holds for {:?}, expected only {}", table.is_target_ttls, b.largest_ttl);
+        } else {
+            vensure!(table.is_target_ttls.is_empty(), "is-target", "after round {k}: path length 0 but is_target() holds for {:?}", table.is_target_ttls);
+        }
+        let in_round: Vec<u8> = expect.iter().copied().filter(|t| *t != 0 && *t <= b.largest_ttl).collect();
+        let got_in_round: Vec<u8> = table.in_round_ttls.iter().copied().filter(|t| *t != 0).collect();
+        vensure!(got_in_round == in_round, "in-round", "after round {k}: is_in_round() holds for {got_in_round:?}, expected {in_round:?}");
+        vensure!(table.round_count == k + 1, "round-count", "after round {k}: round_count(default flow) = {}", table.round_count);
+        Ok(())
+    };
+    // before any round: empty, and querying does not fail
+    {
+        let state = trippy_core::State::new(trippy_core::verif::StateConfig { max_samples: h.max_samples, max_flows: h.max_flows });
+        match catch(|| summarize(&state)) {
+            Ok(t) => vensure!(t.hop_ttls.is_empty() && t.round_count == 0, "fresh-not-empty", "a fresh table has hops {:?}", t.hop_ttls),
+            Err(p) => vfail!(panic_sig(&p), "querying a fresh hop table panicked: {p}"),
+        }
+    }
+    c05::apply_history(h, &mut after)?;
+    if h.rounds.len() >= 2 && highest > 0 {
+        obs.class("nontrivial");
+        if leading_gap {
+            obs.class("leading-skipped");
+        }
+        if h.first_ttl > 1 {
+            obs.class("first-ttl>1");
+        }
+        obs.nontrivial(&serde_json::to_string(h).unwrap_or_default());
+    }
+    obs.sample(json!({"first_ttl": h.first_ttl, "rounds": h.rounds.len(), "lowest": lowest, "highest": highest}));
+    Ok(())
+}
+
 pub fn check() -> PropertyCheck {
     PropertyCheck {
         id: "C10",
         level: "exploration",
-        rule: "cases = (configuration, world) by proptest, the table is read through the public State accessors after every published round; oracle = gap-free TTL run [lowest probed .. greatest path length], target hop = latest path length, true distance when a stable single path's target answered the ttl=distance probe, empty when nothing ever answered; non-trivial = >= 2 rounds with at least one answer; distinct by (first-ttl, lowest, highest, per-round path lengths, #paths)",
-        assumptions: vec!["SimSocket models the socket layer"],
-        subs: vec![Box::new(Pbt {
-            name: "table-e2e",
-            quick: 120_000,
-            thorough: 2_000_000,
-            strat,
-            test,
-            max_shrink: 3000,
-        })],
+        rule: "table-e2e / table-faults: cases = (configuration, world[, 1..4 socket faults: failed sends, TCP address-in-use re-issues, late fatal errors]) by proptest, the table is read through the public State accessors after every published round; synthetic: generated round sequences (Complete / Awaited / Failed / Skipped entries in any position, first-ttl 1..254, reported path length 0 or a probed TTL) applied to State directly. Oracle = gap-free TTL run [lowest probed .. greatest path length], target hop = latest path length, true distance when a stable single path's target answered the ttl=distance probe, empty when nothing ever answered, no query panics (also on a fresh table). Non-trivial = >= 2 rounds with at least one answer (e2e), a Failed/Skipped entry in a published round (faults); distinct by (first-ttl, lowest, highest, per-round path lengths, #paths) / whole history",
+        assumptions: vec!["SimSocket models the socket layer", "synthetic rounds report 0 or a TTL probed in that round as path length, as the strategy does"],
+        subs: vec![
+            Box::new(Pbt {
+                name: "table-e2e",
+                quick: 120_000,
+                thorough: 2_000_000,
+                strat,
+                test,
+                max_shrink: 3000,
+            }),
+            Box::new(Pbt {
+                name: "table-faults",
+                quick: 60_000,
+                thorough: 1_000_000,
+                strat: fault_strat,
+                test: fault_test,
+                max_shrink: 3000,
+            }),
+            Box::new(Pbt {
+                name: "synthetic",
+                quick: 60_000,
+                thorough: 1_500_000,
+                strat: syn_strat,
+                test: syn_test,
+                max_shrink: 3000,
+            }),
+        ],
     }
 }
